@@ -20,7 +20,7 @@ type vStringerT struct{ s string }
 
 func (v vStringerT) String() string { return v.s }
 
-const vNumArgKinds = 14
+const vNumArgKinds = 16
 
 // vArg builds one element of an argument list; the kind is chosen by the
 // solver, scalar contents are symbolic where they influence control flow.
@@ -66,6 +66,11 @@ func vArg(depth int) any {
 		return 1500 * time.Millisecond
 	case 13:
 		return vStringerT{"s"}
+	case 14:
+		return (*int)(nil) // a typed nil pointer of a type without methods
+	case 15:
+		x := 7
+		return &x
 	}
 	return nil
 }
